@@ -202,8 +202,13 @@ public:
         typename Map::iterator it = map_.find(key);
         if (it != map_.end())
         {
+            // value may refer to the stored value itself, as in
+            // put(k, get(k)): construct the new pair before the old one is
+            // erased, then redirect the map entry.
+            list_.push_front(KeyValuePair(key, value));
             list_.erase(it->second);
-            map_.erase(it);
+            it->second = list_.begin();
+            return;
         }
 
         // insert key into linked list at the front (most recently used)
